@@ -53,6 +53,18 @@ func main() {
 		os.Exit(cmdCheck(os.Args[2:]))
 	case "replay":
 		os.Exit(cmdReplay(os.Args[2:]))
+	case "shards":
+		// lzmc shards <ID> [tier]: list the shard names of a check
+		if len(os.Args) < 3 || harness.Registry[os.Args[2]] == nil {
+			usage()
+		}
+		tier := "quick"
+		if len(os.Args) > 3 {
+			tier = os.Args[3]
+		}
+		for _, sh := range harness.Registry[os.Args[2]].Shards(tier) {
+			fmt.Println(sh.Name)
+		}
 	case "worker":
 		os.Exit(cmdWorker(os.Args[2:]))
 	case "worker-replay":
